@@ -1,7 +1,7 @@
 """Per-property configuration of ./check: Lean modules, correspondence streams, oracles, and the
 texts that go into MANIFEST.json (regenerate with ./mkmanifest.py)."""
 
-HOOK_COMMITS = ["42d3529", "6304aea", "b625c0d", "ec24054", "b4e8b86", "70718ab"]
+HOOK_COMMITS = ["42d3529", "6304aea", "b625c0d", "ec24054", "b4e8b86", "70718ab", "f9a3d63"]
 NOT_APPLICABLE = {}
 
 PROPS = {
@@ -13,7 +13,7 @@ PROPS = {
         "claim": "Lean 4 per-pixel exactness theorems for the reductions, over all sample values: 16->8 (equal bytes) incl. the colour-key conversion (a key with unequal bytes "
                  "matches no reducible pixel), RGB(A)->gray(+alpha) incl. key, dropping an opaque alpha channel, palette entries built from pixels, bit replication 1/2/4<->8; every "
                  "reduction is modelled literally and compared with the code output-for-output (exact streams), interlacing likewise; the end-to-end oracle decodes input and output with "
-                 "an independent reference decoder and compares all pixels at 16-bit precision for generated files x generated option sets (alpha and scale16 off) incl. 2-step chains.",
+                 "an independent reference decoder and compares all pixels at 16-bit precision for generated files x generated option sets (alpha and scale16 off) incl. 2-step chains. The co-occurrence palette sorters end in two shared steps (apply_most_popular_color, apply_palette_reorder) that are modelled literally and compared incl. panics on arbitrary remappings (permutations, duplicates, entries beyond the palette / the 256-entry table); palette_reorder_lossless proves the result lossless for ANY repetition-free remapping covering the used indices, most_popular_perm that the first step only rearranges.",
         "note": "IMAGE LEVEL, proved for every size and content (Spec.samePicture: same geometry and the same 16-bit RGBA meaning at every stored position): depth16to8_lossless (exact path, all four "
                 "16-bit colour types, with or without key), rgb_to_gray_lossless (8/16 bit, key carried or dropped), drop_alpha_lossless (opaque alpha, 8/16 bit; via a characterisation of the scanning "
                 "fold), to_indexed_lossless (gray / gray+alpha / RGB / RGBA with or without key; build_palette specification by induction), indexed_to_channels_lossless (all four target types, "
